@@ -111,8 +111,27 @@ class Sim:
         if pf is None:
             return
         d, rel = pf
+        if getattr(self, 'resurrect', False):
+            p = self.arr.path(d, rel)
+            if not hasattr(self, 'graveyard'): self.graveyard = []
+            self.graveyard.append((d, rel, self.arr.read(d, rel), os.stat(p).st_mtime_ns))
         os.unlink(self.arr.path(d, rel))
         self.log('delete %s/%r' % (d, rel))
+
+    def fs_resurrect(self):
+        """a deleted file comes back with the same bytes (restored from a backup: same or new time-stamp)"""
+        g = [x for x in getattr(self, 'graveyard', []) if not os.path.lexists(self.arr.path(x[0], x[1]))]
+        if not g:
+            return self.fs_create()
+        d, rel, data, mt = self.rng.choice(g)
+        par = os.path.dirname(self.arr.path(d, rel))
+        q = par
+        while q != self.arr.ddir(d):
+            if os.path.lexists(q) and not os.path.isdir(q): return
+            q = os.path.dirname(q)
+        same = self.rng.chance(1, 2)
+        self.arr.write(d, rel, data, mt if same else self.tick())
+        self.log('resurrect %s/%r (same bytes, %s time-stamp)' % (d, rel, 'same' if same else 'new'))
 
     def fs_wipe_disk(self):
         """remove every file of one data disk (needs --force-empty at the next sync)"""
@@ -234,6 +253,8 @@ class Sim:
             ops = ops + [(self.fs_wipe_disk, 2)]
         if self.links and not getattr(self, 'churn', False):
             ops += [(self.fs_link, 1), (self.fs_dir, 1)]
+        if getattr(self, 'resurrect', False):
+            ops = ops + [(self.fs_delete, 3), (self.fs_resurrect, 5)]
         tot = sum(w for _, w in ops)
         for _ in range(n):
             x = self.rng.below(tot)
